@@ -17,7 +17,8 @@ EXPLANATION = ("Gating. R1 (exhaustive over every log macro LogMacros.h defines,
                "all its filters; the filter test, the override-formatter choice and write_log use the same sink; write_log receives the "
                "event's effective level. R4: every decoded event gets dynamic_log_level assigned on every path (record value or None) "
                "and TransitEvent::log_level() returns it iff the metadata level is Dynamic (events are reused)."
-               " R5: the override pattern reaches Sink's field through every constructor chain. R6 (= C12.R7): options equality. R7: the threshold setters store their argument; add_filter appends under the lock, then raises the flag, refuses duplicates only; the local list is reloaded iff the flag is set; a sink without filters accepts. All nine compile-time level floors are analysed in both tiers.")
+               " R5: the override pattern reaches Sink's field through every constructor chain. R6 (= C12.R7): options equality. R7: the threshold setters store their argument; add_filter appends under the lock, then raises the flag, refuses duplicates only; the local list is reloaded iff the flag is set; a sink without filters accepts. All nine compile-time level floors are analysed in both tiers."
+               " R8: the logger's threshold is applied where the statement is made and nowhere else: LoggerBase::log_level is touched by its accessors only and no function that can run on the backend thread calls get_log_level / should_log_statement.")
 TECHNIQUE = "static analysis: custom checker over clang AST/CFG facts of generated macro-expansion witnesses (every log macro, every compile-time level floor) and of the backend's gate functions"
 NOT_DECIDED = ("Concurrent level changes (relaxed atomics: 'at the moment of the call' is whatever the load returns); user filter "
                "semantics.")
